@@ -96,6 +96,7 @@ struct WorldH : World {
       Proc *p = k->find_proc(np); newu_status = p ? p->status : -1;
       int64_t tr = plan->knobs.geti("cdb_truncate", -1);
       Inode *cdb = k->lookup(t.home + "/users/cdb");
+      if (cdb) for (auto &fl : plan->knobs["cdb_flip"].a) { size_t off = (size_t)fl.i() % (cdb->data.size() ? cdb->data.size() : 1); if (!cdb->data.empty()) { cdb->data[off] = (char)(cdb->data[off] ^ (1 << (fl.i() % 8))); cdb->synced = cdb->data; cdb_damaged = true; k->note_fault("cdb_corrupt"); } }
       if (cdb && tr >= 0 && (size_t)tr < cdb->data.size()) { cdb->data.resize((size_t)tr); cdb->synced = cdb->data; cdb_damaged = true; k->note_fault("cdb_corrupt"); }
     }
     std::string bin = mode == "clean" ? "qmail-clean" : mode == "lspawn" ? "qmail-lspawn" : "qmail-rspawn";
@@ -324,6 +325,7 @@ struct WorldH : World {
   }
 
   void finish() override {
+    if (plan->knobs.getb("nojudge", false)) { res->nontrivial = true; if (!helper_done) violate("C20.helper-hung", mode + " still running"); Hash64 h9; h9.str(out->data); res->state_hash = h9.get(); return; }
     if (c09r) { finish_c09r(); Hash64 h0; h0.str(out->data); res->state_hash = h0.get(); return; }
     if (c11) finish_c11(); else if (mode == "clean") finish_clean(); else finish_spawner();
     Hash64 h; h.str(out->data); res->state_hash = h.get();
